@@ -11,6 +11,7 @@ import TxVerif.Props.C18
 import TxVerif.Model.CodecDriver
 import TxVerif.Model.Crash
 import TxVerif.Model.CrashFail
+import TxVerif.Model.CrashFailOpt
 import TxVerif.Model.PQDriver
 import TxVerif.Model.PQCounters
 open TxVerif
@@ -173,11 +174,12 @@ def crashProgram (lines : List String) : Nat × Option String :=
       | none => (n, some s!"operation #{n} `{l}` violates the commit discipline (committed state {c.aSt}, txid {c.aTx}, slot {c.aSlot}, in flight {c.inflight}, {c.pending.length} pending)")
   go c0 0 ops
 
-def TxVerif.Phase.show : Phase → String
-  | .normal => "normal" | .failed st => s!"final sync of state {st} failed" | .restoring st => s!"restoring after failed commit of state {st}"
+def TxVerif.OPhase.show : OPhase → String
+  | .normal => "normal" | .failed st _ => s!"final sync of state {st} failed" | .restoring st _ => s!"restoring after failed commit of state {st}"
 
 /-- the same for operation logs that contain failing syncs (`sf`): the extended discipline
-    `FCfg.step` (Model/CrashFail.lean: failed data sync, failed final sync, restoreMeta) -/
+    `OCfg.step` (Model/CrashFailOpt.lean: failed data sync, failed final sync, restoreMeta; a failing
+    sync makes an unknown subset of the pending operations durable and leaves them pending) -/
 def crashFailProgram (lines : List String) : Nat × Option String :=
   let states : List (Nat × List (Nat × Nat)) := lines.filterMap fun l =>
     match l.splitOn " " with
@@ -198,13 +200,24 @@ def crashFailProgram (lines : List String) : Nat × Option String :=
     | ["sf"] => some (l, FOp.syncFail)
     | ["t", n] => n.toNat?.map fun n => (l, FOp.op (TOp.trunc n))
     | _ => none
-  let rec go (c : FCfg) (n : Nat) : List (String × FOp) → Nat × Option String
+  let rec go (c : OCfg) (n : Nat) : List (String × FOp) → Nat × Option String
     | [] => (n, none)
     | (l, op) :: rest =>
       match c.step reachOf op with
       | some c' => go c' (n + 1) rest
-      | none => (n, some s!"operation #{n} `{l}` violates the commit discipline with failing syncs (committed state {c.base.aSt}, txid {c.base.aTx}, slot {c.base.aSlot}, in flight {c.base.inflight}, {c.base.pending.length} pending, phase: {c.phase.show})")
-  go (FCfg.ofCfg c0) 0 ops
+      | none =>
+        -- documented deviation (DESIGN.md 14.5): after the final sync, the sync of the restore AND the
+        -- sync of the rollback all failed, the engine goes on writing. Not crash safe
+        -- (`lax_opt_not_crash_safe`), outside C08 (clean reopen) and C01 (no I/O errors): reported as a
+        -- NOTE, the walk continues with the lax step.
+        match (match c.phase with | .restoring _ _ => c.stepLax reachOf op | _ => none) with
+        | some c' =>
+          match go c' (n + 1) rest with
+          | (m, none) => (m, some s!"NOTE operation #{n} `{l}` continues after a failed commit whose restore is not durable yet (three consecutive failing syncs)")
+          | r => r
+        | none =>
+          (n, some s!"operation #{n} `{l}` violates the commit discipline with failing syncs (committed state {c.base.aSt}, txid {c.base.aTx}, slot {c.base.aSlot}, in flight {c.base.inflight}, {c.base.pending.length} pending, phase: {c.phase.show})")
+  go (OCfg.ofCfg c0) 0 ops
 
 partial def crashLoop (h : IO.FS.Stream) (acc : List String) (prog : String) (checked mism progs : Nat) (withFail : Bool := false) : IO (Nat × Nat × Nat) := do
   let line ← h.getLine
@@ -216,8 +229,12 @@ partial def crashLoop (h : IO.FS.Stream) (acc : List String) (prog : String) (ch
     match err with
     | none => crashLoop h [] "" (checked + n) mism (progs + 1) withFail
     | some e => do
-      IO.println s!"MISMATCH {prog}: {e}"
-      crashLoop h [] "" (checked + n) (mism + 1) (progs + 1) withFail
+      if e.startsWith "NOTE " then
+        IO.println s!"{e} [{prog}]"
+        crashLoop h [] "" (checked + n) mism (progs + 1) withFail
+      else
+        IO.println s!"MISMATCH {prog}: {e}"
+        crashLoop h [] "" (checked + n) (mism + 1) (progs + 1) withFail
   else crashLoop h (l :: acc) prog checked mism progs withFail
 
 /-- pqhdr mode: every queue header observed on the implementation must satisfy the header
